@@ -493,7 +493,7 @@ def history_case(draw):
     for n in nets:
         cand = [b['id'] for b in n['branches'] if b['kind'] in ('vsrc', 'isrc', 'linv', 'lini', 'short')]
         keep.append(draw(st.lists(st.sampled_from(cand), max_size=2, unique=True)) if cand else [])
-    w0 = draw(st.sampled_from([1.0, 50.0, 314.0]))
+    w0 = draw(st.sampled_from([1.0, 50.0, 314.0, 314.1592653589793, 2.5]))
     circuit = draw(cc.circuit(2, 4, 6, source_kinds_v=('dc_voltage_source', 'ac_voltage_source', 'periodic_voltage_source'),
                               source_kinds_i=('dc_current_source', 'ac_current_source'), w_pool=[w0], lossy_prob=0, forced_lossy=False))
     dynamic = draw(dy.ladder_circuit(max_sections=2))
